@@ -143,9 +143,10 @@ PROPS["C07"] = dict(
 )
 PROPS["C10"] = dict(
     level="other",
-    claim="Every eager entry point under array/array (209) builds exactly one view by calling view::<its own name> with its own leading parameters in declaration order and returns eval() of that view with context, output and resolver forwarded; so the eager result is the evaluation of the lazy view the user would have built. R-EVAL: in every instantiated default evaluator the copy is output[ndindex(shape(output))[i]] = view[ndindex(shape(view))[i]] for i < ndindex(shape(view)).size(), reached only after shape(output)==shape(view), and the allocating overload resizes the result to shape(view) before the copy and returns it.",
+    claim="Every eager entry point under array/array (209) builds exactly one view by calling view::<its own name> with its own leading parameters in declaration order and returns eval() of that view with context, output and resolver forwarded; so the eager result is the evaluation of the lazy view the user would have built. R-EVAL: in every instantiated default evaluator the copy is output[ndindex(shape(output))[i]] = view[ndindex(shape(view))[i]] for i < ndindex(shape(view)).size(), reached only after shape(output)==shape(view), and the allocating overload resizes the result to shape(view) before the copy and returns it. R-FWD.defaults: a defaulted leading parameter of an eager wrapper has the default of the lazy view's parameter at the same position. (E1 c10b_eval, constant small shapes with symbolic elements) the arrays returned by array::transpose / reshape / tile / subtract (broadcast) / concatenate / sum / broadcast_to / matmul have the view's shape and, at every index, the element the operation's definition gives - this exercises the default evaluator's copy loop and result-buffer choice end to end for fixed results.",
     note=E2_NOTE,
     technique=E2_TECH,
+    e1=[dict(tu="c10b_eval.cpp")],
     e2=[dict(rule="R-FWD.array"), dict(rule="R-EVAL")],
     e3=[dict(group="C10")],
     rule="E2: one instance per function template with a `context` parameter under include/nmtools/array/array (distinct by qualified name and parameter list); one instance per instantiated member of the default evaluator (R-EVAL)",
